@@ -336,6 +336,10 @@ class PrintrunWriter(BaseWriter):
             self._logger.debug("Device message: %s", message)
 
             if lower_message.startswith(SUCCESS_PREFIXES):
+                # Some reports share the line with the acknowledgment,
+                # e.g. "ok T:210.0 /210.0 B:60.0 /60.0". Parse them
+                # before the waiting writer is released.
+                self._parse_message(message)
                 self._ack_event.set()
                 return
             elif lower_message.startswith(ERROR_PREFIXES):
